@@ -6,7 +6,7 @@ IDS="$@"; [ -z "$IDS" ] && IDS=$(ls seeded)
 mkdir -p sensitivity
 for id in $IDS; do
   d=seeded/$id; P=$(jq -r .breaks_property $d/meta.json)
-  PROPS="$P"
+  PROPS="$P $(jq -r '(.also_check // []) | join(" ")' $d/meta.json)"
   S=$(mktemp -d /tmp/seeded-XXXXXX)
   rsync -a --exclude .git /repo/ $S/ && ( cd $S && patch -p1 -s < /verif/$d/patch.diff ) || { echo "$id PATCH-FAILED"; rm -rf $S; continue; }
   for Q in $PROPS; do
